@@ -180,7 +180,10 @@ def run_check(pid, tier, seed, replay, t0, skip_proofs=False):
     # 4. harness (all requested builds, in parallel: separate target directories)
     bins = {}
     from concurrent.futures import ThreadPoolExecutor as _TPE
-    with _TPE(max_workers=4) as ex:
+    # cold target directories (first run after a restore, or the scratch harness of a DSI_REPO copy): the
+    # builds run one at a time (concurrent cold cargo builds in one package directory have failed spuriously)
+    warm = all(vlib.harness_target_warm(feats, profile) for feats, profile in prop.builds)
+    with _TPE(max_workers=4 if warm else 1) as ex:
         futs = {(tuple(feats), profile): ex.submit(vlib.harness_bin, feats, profile) for feats, profile in prop.builds}
     for key, fu in futs.items():
         b = fu.result()
